@@ -532,8 +532,14 @@ class CooperativeTask:
             if isinstance(result, Deferred):
                 self.pause()
 
-                def failLater(failure: Failure) -> None:
+                def failLater(failure: Failure) -> Optional[Failure]:
+                    if self._completionState is not None:
+                        # This task was stopped (or otherwise finished) while
+                        # it was waiting: whenDone() has already fired, so
+                        # leave the failure to the Deferred's own chain.
+                        return failure
                     self._completeWith(TaskFailed(), failure)
+                    return None
 
                 result.addCallbacks(lambda result: self.resume(), failLater)
 
